@@ -502,6 +502,10 @@ def _sink(ck, fx, cg):
                   "at most one write per call, of exactly the given text (%d path(s))" % n_paths if not bad else "; ".join(sorted(set(bad))[:3]))
     allowed = {path: "the VM's stdout sink", A.get("cli.disassemble"): "the listing of `fml disassemble`", "NamedSink::console": "stage output of parse / compile (not used by run / execute)"}
     n_w = 0
+    # what only another sub-command can reach (a future `fml version`, the parse / compile stages) does not run during
+    # `run` / `execute`; what nothing is seen to call (a `Drop`, whose calls are compiler-inserted) stays suspect
+    runs = cg.reachable([d for r in ("cli.run", "cli.interpret") for d in cg.dids_of(A.get(r))])
+    from_main = cg.reachable(cg.dids_of(A.get("main")))
     for hb in fx.hir:
         hits = [n for n, ps in walk_body(hb) if n.get("k") in ("Call", "MethodCall") and n.get("callee") and (callee_def(n) or "") in ("std::io::stdout", "std::io::_print")]
         if not hits:
@@ -510,6 +514,9 @@ def _sink(ck, fx, cg):
         fn = hb["path"].split("::{closure#", 1)[0]
         ok = fn in allowed
         why = allowed.get(fn)
+        fds = cg.dids_of(fn)
+        if not ok and fds and any(d in from_main for d in fds) and not any(d in runs for d in fds):
+            ok, why = True, "reachable from main through other sub-commands only, never from `run` / `execute`"
         if not ok:
             # a private helper that only serves the allowed writers
             ds = cg.dids_of(fn)
